@@ -29,11 +29,25 @@ P = {
              tech="TLC invariant UniqueOK on MC_Txn + must-accept/must-reject trace validation"),
  "C07": dict(engine="tla-txn", cat="model_checking", text=TXN_TEXT, note=TXN_NOTE, ref="6 C07",
              tech="Monitor.tla: each wire notification of the real server judged as the exact difference (TLC trace validation)"),
+ "C10": dict(engine="tla-diff", cat="model_checking", ref="6 C10",
+             text="Diff.tla states the update2 difference algebra; TLC checks the laws (empty iff equal, Apply(a, Diff(a,b)) = b, merge law, toggle) "
+                  "exhaustively over all pairs of subsets of a 4-element universe, all pairs of maps over 3 keys x 2 values, optionals and atoms, "
+                  "and enumerates the same pairs; each pair runs through AddOperation(update) -> Modify -> JSON -> AddRowUpdate2 on the real updates "
+                  "package for integer/string/real/uuid columns in several element orders (plus seeded random larger values) and TLC validates every outcome.",
+             note="Trusted: TLC, harness value instantiation; a binding self-test (a corrupted event must be rejected) runs in every shard.",
+             tech="TLC-checked algebraic laws + exhaustive enumerate-and-replay + TLC trace validation"),
+ "C11": dict(engine="tla-diff", cat="model_checking", ref="6 C11",
+             text="Merge.tla transcribes merge.go's case analysis; TLC checks over every sequence (length <= 4) of 23 operations on one row from 4 "
+                  "starting rows that the accumulated update equals the single net update; the sequences are executed through AddOperation + Merge "
+                  "on the real updates package (as a transaction does) on four column type groups and TLC validates ForEachModelUpdate / ForEachRowUpdate / GetModel.",
+             note="Trusted: TLC, harness value instantiation; binding self-test in every shard. delete followed by re-insert is outside the model.",
+             tech="TLC model checking of Merge.tla + enumerate-and-replay + TLC trace validation"),
  "C15": dict(engine="tla-txn", cat="model_checking", text=TXN_TEXT, note=TXN_NOTE, ref="6 C15",
              tech="type-directed name expansion in Txn.tla judging recorded transactions with named inserts"),
 }
 ENGINES = {
  "tla-txn": ("spec/TraceTxn.tla", "TLA+ reference model of OVSDB transactions, references, indexes and monitors + TLC trace validation of executions recorded from the real engine/server"),
+ "tla-diff": ("spec/Diff.tla", "TLA+ difference algebra and update aggregation (Diff.tla, Merge.tla) + enumerate-and-replay through the updates package"),
  "tla-cache": ("spec/Cache.tla", "TLA+ state machine of the row cache's index maintenance + enumerate-and-replay + TLC trace validation"),
 }
 ALL = ["C%02d" % i for i in range(1, 21)]
